@@ -58,6 +58,17 @@ Theorem C03_gc_spec : forall h, wf h ->
     /\ forall b, In b h' <-> (In b h /\ reachable h (roots h) (bid b)).
 Proof. exact gc_spec. Qed.
 
+(* along EVERY history of driver operations (alloc / alloc_view / add_edge / del_edge / drop_handle /
+   drop_view / take_view / take_handle / gc, in any order, on any ids) the heap stays well formed, so
+   a collection at any point of any history is exact, and the model driver never reports a failure *)
+Theorem C03_history_gc_exact : forall os,
+  let h := sheap (exec init_st os) in
+  exists h', gc h = Ok h' /\ forall i, In i (ids h') <-> reachable h (roots h) i.
+Proof. exact history_gc_exact. Qed.
+
+Theorem C03_run_ops_never_fails : forall os site, ~ In (ObsFail site) (run_ops init_st os).
+Proof. exact run_ops_never_fails. Qed.
+
 Definition C03_goal : Prop := forall h, wf h ->
   exists h', gc h = Ok h' /\ forall i, In i (ids h') <-> reachable h (roots h) i.
 Theorem C03_goal_holds : C03_goal.
@@ -112,6 +123,8 @@ Print Assumptions C03_baseline_return.
 Print Assumptions C03_baseline_return_perm.
 Print Assumptions C03_gc_no_panic.
 Print Assumptions C03_gc_spec.
+Print Assumptions C03_history_gc_exact.
+Print Assumptions C03_run_ops_never_fails.
 Print Assumptions C03_goal_holds.
 Print Assumptions C03_cyc2.
 Print Assumptions C03_ring.
